@@ -230,5 +230,31 @@ func runC04(ctx *runCtx) {
 			}
 		}
 	}
+	// complete streams whose transport hands over the last bytes together with its end (n > 0 and EOF / an error from the
+	// same Read): every message was received completely and must be delivered intact
+	for i := 0; i < 64; i++ {
+		// the last message is large and in one frame, so that the transport's last Read is a large one
+		o := &genOpts{Client: i%2 == 0, Flate: i%4 >= 2, Takeover: i%8 >= 4, MaxMsgs: 2, MaxSize: 100, Sizes: []int{50, 9000 + 1000*(i%3)}, ForceCompressed: true}
+		gs := buildValid(rng, o)
+		for len(gs.Msgs) < 2 { // both messages wanted
+			gs = buildValid(rng, o)
+		}
+		// single-frame messages only: regenerate until no message was split
+		for tries := 0; tries < 50 && len(gs.Frames) != len(gs.Msgs); tries++ {
+			gs = buildValid(rng, o)
+			for len(gs.Msgs) < 2 {
+				gs = buildValid(rng, o)
+			}
+		}
+		c := baseCase(rng, o, "valid")
+		b, _ := gs.encode()
+		c.Stream = hex.EncodeToString(b)
+		c.Exp = gs.expectPrefix(len(gs.Frames), "end of stream at a frame boundary")
+		c.Term = []string{"eof-glued", "err-glued"}[(i/2)%2]
+		c.Chunks = nil
+		c.Bufs = [][]int{{4096}, {16384}, {32768}, {100}}[(i/8)%4]
+		c.Desc = "valid"
+		cases = append(cases, c)
+	}
 	runReadCases(ctx, cases, func(c *ReadCase) string { return "cut" })
 }
